@@ -121,6 +121,116 @@ def correspondence(data, opvars):
     return mism, errors, sum(sizes.values())
 
 
+def run_lca(seed: int, out: Path):
+    env = dict(os.environ, PYTHONHASHSEED=str(seed))
+    p = subprocess.run([PY, "-W", "ignore", str(VERIF / "harness" / "impl_lca.py"), str(out)],
+                       env=env, capture_output=True, text=True, timeout=900)
+    if p.returncode != 0:
+        raise RuntimeError("impl_lca failed:\n" + p.stderr[-3000:])
+    return json.loads(out.read_text())
+
+
+def lca_outcome_to_coq(o) -> str:
+    if o[0] == "T":
+        return f"(TOk {translate.json_to_coq(o[1])})"
+    return "(TErr EDataType)" if o[0] == "DataTypeError" else "(TErr EInternalT)"
+
+
+LCA_HEADER = """From Coq Require Import List String NArith Bool.
+From PDT Require Import Model.Dtype Model.Universe Model.Typing Model.Lca Proofs.LcaLemmas.
+Import ListNotations.
+Open Scope N_scope.
+Fixpoint cmpl (i : nat) (ms cs : list (tres dtype)) : list nat :=
+  match ms, cs with
+  | [], [] => []
+  | m :: ms', c :: cs' => if tres_dtype_eqb m c then cmpl (S i) ms' cs' else i :: cmpl (S i) ms' cs'
+  | _, _ => [i; i]
+  end.
+"""
+
+
+def lca_check(ctx, seeds, viol):
+    """lca_type incl. List types: oracle on the implementation (never an internal error, result independent of the
+    argument order and of PYTHONHASHSEED) + outcome-by-outcome correspondence with Model/Lca.lca_l."""
+    import itertools
+    import impl_lca
+    tmp = Path(tempfile.mkdtemp(prefix="c13l_", dir=str(CASES.parent)))
+    try:
+        datas = [run_lca(s, tmp / f"l{s}.json") for s in seeds[:2]]
+    finally:
+        for f in tmp.glob("*"):
+            f.unlink()
+        tmp.rmdir()
+    d0 = datas[0]
+    doms = {"pairs": list(itertools.product(impl_lca.LU, impl_lca.LU)),
+            "triples": list(itertools.product(impl_lca.LU3, impl_lca.LU3, impl_lca.LU3))}
+    n = 0
+    for kind, tuples in doms.items():
+        outs = d0[kind]
+        n += len(outs)
+        index = {json.dumps(list(t)): o for t, o in zip(tuples, outs)}
+        bad_int, bad_ord, bad_seed = 0, 0, 0
+        for t, o, o1 in zip(tuples, outs, datas[-1][kind]):
+            if o[0] == "Other" and bad_int < 3:
+                bad_int += 1
+                viol.append({"what": f"lca_type({json.dumps(list(t))}) fails with the internal error {o[1]}",
+                             "found_input": True, "payload": {"function": "types.lca_type", "args": list(t), "outcome": o,
+                                                               "expected": "a type or DataTypeError"}})
+            if o != o1 and bad_seed < 3:
+                bad_seed += 1
+                viol.append({"what": "lca_type depends on PYTHONHASHSEED", "found_input": True,
+                             "payload": {"function": "types.lca_type", "args": list(t), "outcome_a": o, "outcome_b": o1,
+                                         "seeds": seeds[:2]}})
+            if bad_ord < 3:
+                for perm in itertools.permutations(t):
+                    o2 = index[json.dumps(list(perm))]
+                    if o2 != o:
+                        bad_ord += 1
+                        viol.append({"what": f"lca_type depends on the argument order: {json.dumps(list(t))} -> {o}, "
+                                             f"{json.dumps(list(perm))} -> {o2}",
+                                     "found_input": True,
+                                     "payload": {"function": "types.lca_type", "args": list(t), "outcome": o,
+                                                 "permuted_args": list(perm), "permuted_outcome": o2}})
+                        break
+    mism = 0
+    if ctx.build_ok:
+        def lst(x):
+            return "[" + "; ".join(translate.json_to_coq(t) for t in x) + "]"
+        txt = LCA_HEADER
+        txt += f"Eval vm_compute in (dtypes_eqb LU {lst(impl_lca.LU)} && dtypes_eqb LU3 {lst(impl_lca.LU3)}).\n"
+        txt += ("Eval vm_compute in (cmpl 0 (map (fun p => lca_l 3 [fst p; snd p]) (list_prod LU LU)) [%s]).\n"
+                % "; ".join(lca_outcome_to_coq(o) for o in d0["pairs"]))
+        txt += ("Eval vm_compute in (cmpl 0 (flat_map (fun a => flat_map (fun b => map (fun c => lca_l 3 [a; b; c]) LU3) LU3) LU3) [%s]).\n"
+                % "; ".join(lca_outcome_to_coq(o) for o in d0["triples"]))
+        f = CASES / "c13_lca.v"
+        CASES.mkdir(parents=True, exist_ok=True)
+        f.write_text(txt)
+        p = subprocess.run(["bash", "-c", f"ulimit -s unlimited; timeout 600 coqc {' '.join(common.COQ_ARGS)} {f}"],
+                           capture_output=True, text=True, cwd=common.COQ)
+        import re
+        blocks = re.split(r"\n\s*=\s", "\n" + p.stdout)
+        if p.returncode != 0 or len(blocks) != 4:
+            viol.append({"what": "correspondence cases did not evaluate", "found_input": False,
+                         "payload": {"correspondence": "C13 lca_type (Model/Lca.lca_l vs types.lca_type)",
+                                     "error": (p.stderr or p.stdout)[-1500:]}})
+            return n, -1
+        if not blocks[1].strip().startswith("true"):
+            viol.append({"what": "correspondence cases did not evaluate", "found_input": False,
+                         "payload": {"correspondence": "C13 lca_type", "error": "harness/impl_lca.py LU/LU3 differ from Model/Lca.LU / LcaLemmas.LU3"}})
+            return n, -1
+        for kind, blk in (("pairs", blocks[2]), ("triples", blocks[3])):
+            idxs = [int(x) for x in re.findall(r"\d+", blk.split(":")[0])]
+            mism += len(idxs)
+            for i in idxs[:3]:
+                t = doms[kind][i] if i < len(doms[kind]) else None
+                viol.append({"what": f"model/implementation disagree on lca_type({json.dumps(list(t)) if t else i})",
+                             "found_input": False,
+                             "payload": {"correspondence": "C13 lca_type (Model/Lca.lca_l vs types.lca_type)",
+                                         "args": list(t) if t else None,
+                                         "impl_outcome": d0[kind][i] if t else None}})
+    return n, mism
+
+
 def run(ctx, res):
     import itertools
     from impl_c13 import domains
@@ -212,6 +322,8 @@ def run(ctx, res):
             viol.append({"what": "correspondence cases did not evaluate", "found_input": False,
                          "payload": {"correspondence": "C13", "error": e}})
 
+    lca_n, lca_mism = lca_check(ctx, seeds, viol)
+
     # de-duplicate violations by operator (keep the first few per kind)
     seen, out = {}, []
     for v in viol:
@@ -222,7 +334,7 @@ def run(ctx, res):
     res.violations.extend(out)
     for fid in sorted(hit):
         res.known.append(f"{fid} {known[fid]['what']}")
-    res.traces = n_cases if ctx.build_ok and not errors else 0
+    res.traces = (n_cases + lca_n) if ctx.build_ok and not errors and lca_mism >= 0 else 0
 
     accepted = sum(1 for v in opvars for b in dec0[v] for o in b if o[0] == "T")
     sample_ops = ["add", "horizontal_max", "shift", "str_contains"]
@@ -243,6 +355,7 @@ def run(ctx, res):
         "outcome_histogram": {k: sum(1 for v in opvars for b in dec0[v] for o in b if o[0] == k)
                               for k in ("T", "DataTypeError", "AssertionError", "Other")},
         "correspondence_mismatches": len(mism),
+        "lca_type_cases": lca_n, "lca_type_correspondence_mismatches": lca_mism,
         "samples": samples,
         "partial": ["resolution_total_U holds only modulo NullType arguments (finding F10)",
                     "const_param_rejects_column holds modulo shift's fill_value (finding F17)"],
